@@ -50,26 +50,31 @@ _SEED = int(os.environ.get('VERIF_SEED', '0') or 0)
 X = [1.0, 2.0, 3.0, 4.0]
 Y = [[0.5, 1.0, 2.0, 3.5], [0.75, 1.5, 2.0, 3.25], [0.5, 1.25, 2.25, 3.0], [1.0, 1.0, 2.5, 3.5]][_SEED % 4]
 POINTS = {
-    'P0': (0.0, 0.0),      # the start, f = -7.5
-    'P1': (0.5, 0.0),      # -2.5
-    'P2': (0.8, -1.0),     # -1.977
-    'P3': (0.7, -2.0),     # -0.773 (best)
+    'P0': (0.0, 0.0),      # the start
+    'P1': (0.5, 0.0),      # better
+    'P2': (0.8, -1.0),     # better
+    'P3': (0.7, -2.0),     # the best of the alphabet
     'P4': (0.5, 800.0),    # exp overflow: value -inf, gradient not finite
-    'P5': (1.0, 0.0),      # -12.5 (below the start)
+    'P5': (3.0, 0.0),      # far below the start
+    'P6': (2.0, 0.0),      # between P5 and PN
+    'PN': (-1.0, 0.5),     # FINITE value (between P6 and P0) but infinite gradient: d/db1 (b1+1)**0.5 at b1 = -1
 }
 MODEL_NAME = 'm15'
 ITER = f'__{MODEL_NAME}.iter'
 
 
 def ref_ll(p, x=X, y=Y):
-    """Reference value and finiteness of the gradient, plain Python."""
+    """Reference value and finiteness of the gradient, plain Python.
+    log likelihood = - sum_rows [ (y - b1 x - exp(b2))**2 + (b1 + 1)**0.5 ]"""
     b1, b2 = p
     try:
         e = math.exp(b2)
     except OverflowError:
         return float('-inf'), False
-    f = -sum((yy - b1 * xx - e) ** 2 for xx, yy in zip(x, y))
-    return f, math.isfinite(f)
+    if b1 < -1.0:
+        return float('nan'), False
+    f = -sum((yy - b1 * xx - e) ** 2 + (b1 + 1.0) ** 0.5 for xx, yy in zip(x, y))
+    return f, math.isfinite(f) and b1 > -1.0
 
 
 def bits(v: float) -> str:
@@ -120,7 +125,7 @@ def make_biogeme(names=('b1', 'b2'), start=(0.0, 0.0), fs=None, bounds=None, alg
     if extreme:
         ll = -((Variable('y') - 1e-305 * ba) ** 2) - (bbeta * 1e-3 - Variable('x')) ** 2 * 1e-3
     else:
-        ll = -((Variable('y') - ba * Variable('x') - exp(bbeta)) ** 2)
+        ll = -((Variable('y') - ba * Variable('x') - exp(bbeta)) ** 2) - (ba + 1.0) ** 0.5
     kw = dict(save_iterations=True, generate_html=False, generate_pickle=False)
     if algo:
         kw['optimization_algorithm'] = algo
@@ -214,7 +219,7 @@ def pattern(history):
     for ev in history:
         f, fin = ref_ll(POINTS[ev[0]])
         if not fin:
-            out.append('N')
+            out.append('G' if math.isfinite(f) else 'N')
             continue
         if ref_best is None:
             out.append('I')
@@ -278,23 +283,21 @@ def events(with_scaled):
     pts = list(POINTS)
     if not with_scaled:
         return [(p, 0, 0) for p in pts]
-    return [(p, s, f) for p in pts for (s, f) in ((0, 0), (1, 0), (0, 1), (1, 2), (0, 3))]
+    return [(p, s, f) for p in pts for (s, f) in ((0, 0), (1, 0), (0, 1), (0, 3))]
 
 
 def tasks(tier, seed):
     t = []
-    depth = 3 if tier == 'quick' else 4
+    # (a) all sequences of exactly `depth` events (every prefix is checked on the way); one task per pair of
+    # leading events.  With the flag variants: depth 2 (quick) / 3 (thorough); points only: depth 3 / 5.
     evs = events(True)
-    # (a) all sequences of exactly `depth` events (every prefix is checked on the way);
-    # one task per pair of leading events
     for e0 in evs:
         for e1 in evs:
-            t.append(dict(part='a', prefix=[e0, e1], depth=depth, scaled=True))
-    if tier == 'thorough':
-        ev0 = events(False)
-        for e0 in ev0:
-            for e1 in ev0:
-                t.append(dict(part='a', prefix=[e0, e1], depth=6, scaled=False))
+            t.append(dict(part='a', prefix=[e0, e1], depth=2 if tier == 'quick' else 3, scaled=True))
+    ev0 = events(False)
+    for e0 in ev0:
+        for e1 in ev0:
+            t.append(dict(part='a', prefix=[e0, e1], depth=3 if tier == 'quick' else 5, scaled=False))
     # (b) optimiser traces
     algos = ['automatic', 'scipy', 'LS-newton', 'TR-newton', 'LS-BFGS', 'TR-BFGS',
              'simple_bounds', 'simple_bounds_newton', 'simple_bounds_BFGS']
@@ -308,11 +311,13 @@ def tasks(tier, seed):
     boots = _boot_vectors(tier)
     for i in range(0, len(boots), 6):
         t.append(dict(part='b', algo='simple_bounds', bounds='none', start=[0.0, 0.0], boot=boots[i:i + 6]))
+    # (e) the file follows the current model name
+    t.append(dict(part='e'))
     # (c) restart
     for ni, nm in enumerate(NAME_POOL):
         t.append(dict(part='c', names=ni))
     # (d) crash points
-    pts = ['P0', 'P1', 'P2', 'P3', 'P5', 'P4']
+    pts = ['P0', 'P1', 'P2', 'P3', 'P5', 'P4', 'PN']
     maxlen = 2 if tier == 'quick' else 3
     hs = []
     for n in range(1, maxlen + 1):
@@ -356,6 +361,8 @@ def run_task(task):
             _part_c(task, rec)
         elif task['part'] == 'd':
             _part_d(task, rec)
+        elif task['part'] == 'e':
+            _part_e(task, rec)
     finally:
         unpatch()
     return rec.result()
@@ -450,6 +457,14 @@ def _part_b(task, rec):
                     npr.randint = saved
         except Exception as e:  # an optimiser failing on this problem is not C15's business
             rec.count('estimate_raised_' + type(e).__name__)
+        # the history continues on the same object: points far worse than the best one, evaluated after the
+        # estimation (as check_derivatives or a user would do), must not replace the file
+        try:
+            phase['boot'] = False
+            for pn in ('P5', 'P6'):
+                b.calculate_likelihood_and_derivatives(np.array(POINTS[pn], dtype=float), scaled=False)
+        except Exception as e:
+            rec.count('post_estimate_evaluation_raised_' + type(e).__name__)
         rec.sample(dict(part='b', algo=task['algo'], bounds=task['bounds'], boot=bv, evaluations=state['n']))
         if state['bad']:
             n, inboot, (clause, detail) = state['bad']
@@ -459,6 +474,61 @@ def _part_b(task, rec):
                           f'boot={bv}] at evaluation #{n}: {detail}',
                           dict(part='b', algo=task['algo'], bounds=task['bounds'], start=task['start'],
                                boot=[bv] if bv else None), observed=detail)
+
+
+def _part_e(task, rec):
+    """Histories that rename the model between evaluations: iterations are saved under the name in force when they are
+    saved (first name: the library's default or an explicit one; evaluations before / after the renaming)."""
+    import numpy as np
+
+    def content(name):
+        try:
+            with open(f'__{name}.iter', 'rb') as f:
+                return f.read()
+        except FileNotFoundError:
+            return None
+
+    for first_name in (None, 'first15'):
+        for hist in itertools.product(['P0', 'P1', 'P6'], ['P1', 'P3', 'P0'], ['P5', 'P3']):
+            clean_real()
+            b = make_biogeme()
+            if first_name is None:
+                b.modelName = 'biogemeModelDefaultName'
+                name1 = 'biogemeModelDefaultName'
+            else:
+                b.modelName = name1 = first_name
+            ref = RefModel()
+            p = POINTS[hist[0]]
+            b.calculate_likelihood_and_derivatives(np.array(p, dtype=float), scaled=False)
+            ref.evaluate(p, *ref_ll(p))
+            c1 = content(name1)
+            b.modelName = MODEL_NAME
+            bad = None
+            for pn in hist[1:]:
+                p = POINTS[pn]
+                best_before = ref.best_f
+                b.calculate_likelihood_and_derivatives(np.array(p, dtype=float), scaled=False)
+                f, fin = ref_ll(p)
+                ref.evaluate(p, f, fin)
+                improved = fin and (best_before is None or f >= best_before)
+                cur = content(MODEL_NAME)
+                if improved:
+                    # a save happened now: it must be under the current name and hold the best point
+                    res = check_file(cur, ['b1', 'b2'], ref)
+                    if res:
+                        bad = (f'after-renaming:{res[0]}', f'history {hist}, first name {name1}: file of the current name {MODEL_NAME}: {res[1]}')
+                        break
+                if content(name1) != c1:
+                    bad = ('file-of-the-former-name-rewritten', f'history {hist}: __{name1}.iter changed from {c1!r} to {content(name1)!r} after the renaming')
+                    break
+            rec.case(('e', first_name, hist), (first_name, hist, content(MODEL_NAME), c1), outcome=bad is None)
+            if bad:
+                rec.violation(f'C15|{bad[0]}|rename', bad[1], dict(part='e'), observed=bad[1])
+    rec.sample(dict(part='e', histories='evaluate, rename the model, evaluate twice'))
+    clean_real()
+    for fn in os.listdir('.'):
+        if fn.endswith('.iter'):
+            os.remove(fn)
 
 
 class _Stop(Exception):
@@ -683,6 +753,8 @@ def replay(case):
             # replays the whole name pool entry (cheap); reports matching violations
             _part_c(dict(part='c', names=case['names']), rec)
             rec.violations = [v for v in rec.violations if v['case'].get('values') == case.get('values')] or rec.violations
+        elif part == 'e':
+            _part_e(case, rec)
         elif part == 'd':
             _part_d(dict(part='d', history=case['history']), rec)
             rec.violations = [v for v in rec.violations if v['case'].get('crash') == case.get('crash')] or rec.violations
